@@ -4,6 +4,7 @@ import (
 	"context"
 	"encoding/json"
 	"fmt"
+	gnmi "github.com/openconfig/gnmi/proto/gnmi"
 	"github.com/sdcio/cache/proto/cachepb"
 	"github.com/sdcio/data-server/pkg/cache"
 	"os"
@@ -35,7 +36,7 @@ type c20 struct {
 
 func init() { core.Register(&c20{}) }
 
-var c20Families = []string{"path-strings", "element-sequences", "set-typed-values", "set-json-documents", "set-path-mutations", "rpc-requests", "sync-notifications", "netconf-xml", "stateful-histories"}
+var c20Families = []string{"path-strings", "element-sequences", "set-typed-values", "set-json-documents", "set-path-mutations", "rpc-requests", "sync-notifications", "netconf-xml", "stateful-histories", "gnmi-wire-notifications"}
 
 func (c *c20) ID() string    { return "C20" }
 func (c *c20) Level() string { return "exploration" }
@@ -52,7 +53,7 @@ func (c *c20) batch(tier string) int {
 	return 40
 }
 func (c *c20) Rule() string {
-	return "one case = a batch of PRNG inputs for one entry-point family: path strings (ParsePath, CompletePath, ToStrings, StripPathElemPrefix), element sequences (SchemaClientBound.ToPath), TransactionSet through the Server handler with every typed-value kind against every leaf type, with JSON / JSON_IETF documents against every container (grammar-valid and structure-aware mutations: wrong JSON type at a node, missing / duplicated keys, leaf where a container is expected, deep nesting, huge / negative numbers), with mutated paths, flags, names and priorities; GetData / Subscribe / WatchDeviations / Confirm / Cancel / GetIntent requests; gNMI-style sync notifications through the sync loop; NETCONF XML replies through the production NETCONF target's Get (XML2sdcpb adapter); valid multi-owner transaction histories with leaf-lists of different lengths on a device whose running values drift, with deviation cycles in between. Every request / device message is marshalled and unmarshalled first (only wire-reachable shapes count). The only allowed outcomes are a response or an error: a recovered panic, a dead worker process (panic in a goroutine of the code under test, fatal error, stack overflow) and a call that does not return within 10 s (confirmed by a second run) are violations. distinct = family + inputs; non-trivial = the batch produced at least 3 different outcomes (different error texts / success)"
+	return "one case = a batch of PRNG inputs for one entry-point family: path strings (ParsePath, CompletePath, ToStrings, StripPathElemPrefix), element sequences (SchemaClientBound.ToPath), TransactionSet through the Server handler with every typed-value kind against every leaf type, with JSON / JSON_IETF documents against every container (grammar-valid and structure-aware mutations: wrong JSON type at a node, missing / duplicated keys, leaf where a container is expected, deep nesting, huge / negative numbers), with mutated paths, flags, names and priorities; GetData / Subscribe / WatchDeviations / Confirm / Cancel / GetIntent requests; gNMI-style sync notifications through the sync loop; hostile gNMI notifications from a gNMI device on loopback through the production gNMI target (stream and Get) and the sync loop; NETCONF XML replies through the production NETCONF target's Get (XML2sdcpb adapter); valid multi-owner transaction histories with leaf-lists of different lengths on a device whose running values drift, with deviation cycles in between. Every request / device message is marshalled and unmarshalled first (only wire-reachable shapes count). The only allowed outcomes are a response or an error: a recovered panic, a dead worker process (panic in a goroutine of the code under test, fatal error, stack overflow) and a call that does not return within 10 s (confirmed by a second run) are violations. distinct = family + inputs; non-trivial = the batch produced at least 3 different outcomes (different error texts / success)"
 }
 func (c *c20) Assumptions() []string {
 	return []string{
@@ -283,6 +284,121 @@ func c20Tv(rng *core.Rng) (*sdcpb.TypedValue, string) {
 		return &sdcpb.TypedValue{Value: &sdcpb.TypedValue_IdentityrefVal{IdentityrefVal: &sdcpb.IdentityRef{Value: s}}}, "identityref:" + s
 	}
 	return nil, "<no value>"
+}
+
+// c20GNMINotification draws a gNMI notification: the hostile shapes of the sync-notifications family carried over to gNMI
+// (paths, values) plus the shapes only gNMI has.
+func c20GNMINotification(rng *core.Rng) (*gnmi.Notification, string) {
+	gn := &gnmi.Notification{Timestamp: int64(rng.Intn(3))}
+	d := []string{}
+	gpath := func(p *sdcpb.Path) *gnmi.Path {
+		out := &gnmi.Path{Origin: p.GetOrigin(), Target: p.GetTarget()}
+		for _, e := range p.GetElem() {
+			out.Elem = append(out.Elem, &gnmi.PathElem{Name: e.GetName(), Key: e.GetKey()})
+		}
+		switch rng.Intn(14) {
+		case 0:
+			out.Element = []string{"sys", "descr"} // deprecated string elements next to elem
+		case 1:
+			out.Elem, out.Element = nil, []string{"sys", "name"}
+		case 2:
+			out.Origin = "openconfig"
+		case 3:
+			out.Target = "dev1"
+		case 4:
+			out.Elem = append(out.Elem, nil)
+		}
+		return out
+	}
+	var gval func(tv *sdcpb.TypedValue) *gnmi.TypedValue
+	gval = func(tv *sdcpb.TypedValue) *gnmi.TypedValue {
+		switch v := tv.GetValue().(type) {
+		case *sdcpb.TypedValue_FloatVal:
+			return &gnmi.TypedValue{Value: &gnmi.TypedValue_FloatVal{FloatVal: v.FloatVal}}
+		case *sdcpb.TypedValue_DoubleVal:
+			return &gnmi.TypedValue{Value: &gnmi.TypedValue_DoubleVal{DoubleVal: v.DoubleVal}}
+		case *sdcpb.TypedValue_AnyVal:
+			return &gnmi.TypedValue{Value: &gnmi.TypedValue_AnyVal{AnyVal: v.AnyVal}}
+		case *sdcpb.TypedValue_AsciiVal:
+			return &gnmi.TypedValue{Value: &gnmi.TypedValue_AsciiVal{AsciiVal: v.AsciiVal}}
+		case *sdcpb.TypedValue_ProtoBytes:
+			return &gnmi.TypedValue{Value: &gnmi.TypedValue_ProtoBytes{ProtoBytes: v.ProtoBytes}}
+		case *sdcpb.TypedValue_EmptyVal:
+			return &gnmi.TypedValue{Value: &gnmi.TypedValue_BoolVal{BoolVal: true}}
+		case *sdcpb.TypedValue_LeaflistVal:
+			arr := &gnmi.ScalarArray{}
+			for _, e := range v.LeaflistVal.GetElement() {
+				arr.Element = append(arr.Element, gval(e))
+			}
+			if rng.Chance(1, 6) {
+				arr.Element = append(arr.Element, nil)
+			}
+			return &gnmi.TypedValue{Value: &gnmi.TypedValue_LeaflistVal{LeaflistVal: arr}}
+		case nil:
+			if rng.Bool() {
+				return nil
+			}
+			return &gnmi.TypedValue{}
+		}
+		return toGnmiTv(tv)
+	}
+	k := 1 + rng.Intn(3)
+	if rng.Chance(1, 8) {
+		k = 0
+	}
+	for j := 0; j < k; j++ {
+		p := mutatePath(rng, c20SchemaPaths[rng.Intn(len(c20SchemaPaths))])
+		switch rng.Intn(6) {
+		case 0:
+			gn.Delete = append(gn.Delete, gpath(p))
+			d = append(d, fmt.Sprintf("del %v", p))
+		case 1:
+			paths := []string{"/sys", "/if[name=e1]", "/types", "/cons", "/"}
+			bp := paths[rng.Intn(len(paths))]
+			var v any
+			json.Unmarshal([]byte(c20Docs[bp]), &v)
+			if rng.Bool() {
+				v = mutateJSON(rng, v, 0)
+			}
+			doc, _ := json.Marshal(v)
+			val := &gnmi.TypedValue{Value: &gnmi.TypedValue_JsonVal{JsonVal: doc}}
+			if rng.Bool() {
+				val = &gnmi.TypedValue{Value: &gnmi.TypedValue_JsonIetfVal{JsonIetfVal: doc}}
+			}
+			gn.Update = append(gn.Update, &gnmi.Update{Path: gpath(model.Parse(bp).ToPb()), Val: val})
+			d = append(d, fmt.Sprintf("%s=JSON %s", bp, doc))
+		case 2:
+			// a leaf-list element reported as key, no value
+			lp := model.Parse([]string{"/sys/dns", "/if[name=e1]/addrs", "/types/ll-u64", "/sys/descr"}[rng.Intn(4)])
+			lp[len(lp)-1].Keys = map[string]string{lp[len(lp)-1].Name: []string{"a", "", "5", "x y"}[rng.Intn(4)]}
+			gn.Update = append(gn.Update, &gnmi.Update{Path: gpath(lp.ToPb())})
+			d = append(d, fmt.Sprintf("%s (as key, no value)", lp))
+		default:
+			tv, tvd := c20Tv(rng)
+			gn.Update = append(gn.Update, &gnmi.Update{Path: gpath(p), Val: gval(tv), Duplicates: uint32(rng.Intn(2))})
+			d = append(d, fmt.Sprintf("%v=%s", p, tvd))
+		}
+	}
+	switch rng.Intn(10) {
+	case 0:
+		gn.Prefix = &gnmi.Path{Elem: []*gnmi.PathElem{{Name: "sys"}}}
+		d = append(d, "prefix /sys")
+	case 1:
+		gn.Prefix = &gnmi.Path{Origin: "vfa", Target: "dev1"}
+		d = append(d, "prefix origin/target")
+	case 2:
+		gn.Prefix = &gnmi.Path{Elem: []*gnmi.PathElem{{Name: "if", Key: map[string]string{"name": "e1"}}, nil}}
+		d = append(d, "prefix with a nil element")
+	case 3:
+		gn.Atomic = true
+	case 4:
+		gn.Update = append(gn.Update, nil)
+		d = append(d, "nil update")
+	case 5:
+		gn.Delete = append(gn.Delete, nil)
+		d = append(d, "nil delete")
+	}
+	return gn, strings.Join(d, " ; ")
 }
 
 func mutatePath(rng *core.Rng, p string) *sdcpb.Path {
@@ -751,6 +867,81 @@ func (c *c20) RunCase(w *core.Worker, idx int, seed uint64, res *core.CaseResult
 			if !arrived {
 				res.Violate("C20/hang/sync-loop-stalled", "after this batch of notifications a valid notification does not reach the running store within 10 s (%d notifications still queued): the sync loop has stopped\n  batch: %s", len(ch), strings.Join(inputs, "\n         "))
 			}
+		}
+	case "gnmi-wire-notifications":
+		// the same kind of device messages as gNMI notifications from a gNMI device on loopback: subscription stream and
+		// Get replies of the production gNMI target (gnmic client, utils.ToSchemaNotification / FromGNMITypedValue /
+		// FromGNMIPath), then the sync loop. Plus what only gNMI can say: prefix, origin / target, float / double / any
+		// values, an update without a value, a path given as deprecated string elements or missing altogether
+		gdev, err := fixture.NewGNMIDevice()
+		if err != nil {
+			res.Inconclusive("C20/gnmi-wire/no-device", "%v", err)
+			return
+		}
+		defer gdev.Close()
+		sbi := &config.SBI{Type: "gnmi", Address: "127.0.0.1", Port: gdev.Port(), GnmiOptions: &config.SBIGnmiOptions{Encoding: "proto"}}
+		tg, err := target.New(ctx, "c20g", sbi, nil)
+		if err != nil {
+			res.Inconclusive("C20/gnmi-wire/connect", "%v", err)
+			return
+		}
+		sc := &config.Sync{Validate: rng.Bool(), Buffer: 4096, WriteWorkers: int64(1 + rng.Intn(3)),
+			Config: []*config.SyncProtocol{{Name: "config", Protocol: "gnmi", Mode: "on-change", Paths: []string{"/sys"}, Encoding: "proto"}}}
+		withGet := rng.Bool()
+		if withGet {
+			gdev.SetGetNotifs([]*gnmi.Notification{})
+			sc.Config = append(sc.Config, &config.SyncProtocol{Name: "get", Protocol: "gnmi", Mode: "get", Paths: []string{"/"}, Interval: 40 * time.Millisecond, Encoding: "PROTO"})
+		}
+		ds := c.env.NewDS(fixture.DSOpts{Target: tg, Sync: sc})
+		defer ds.Close()
+		sctx, cancel := context.WithCancel(ctx)
+		defer cancel()
+		go ds.Sync(sctx)
+		if !waitFor(10*time.Second, func() bool { return gdev.NumSubscribers() >= 1 }) {
+			res.Inconclusive("C20/gnmi-wire/no-subscription", "the target did not subscribe within 10 s")
+			return
+		}
+		var held []*gnmi.Notification
+		for i := 0; i < n; i++ {
+			gn, desc := c20GNMINotification(rng)
+			note(desc)
+			fmt.Fprintf(os.Stderr, "VERIF-INPUT %s notification: %s\n", family, desc)
+			gdev.Push(gn)
+			res.Count("calls", 1)
+			res.Count("calls:"+family, 1)
+			if withGet && rng.Chance(1, 3) {
+				// the device also holds it: the next Get replies carry it
+				held = append(held, gn)
+				gdev.SetGetNotifs(append([]*gnmi.Notification{}, held...))
+				g0 := gdev.NumGets()
+				waitFor(2*time.Second, func() bool { return gdev.NumGets() > g0 })
+			}
+		}
+		r.outcomes["sent"] = true
+		r.outcomes[fmt.Sprint("get:", withGet)] = true
+		r.outcomes[fmt.Sprint("held:", len(held) > 0)] = true
+		if withGet {
+			gdev.SetGetNotifs([]*gnmi.Notification{})
+		}
+		// the target's subscription and the sync loop must still be alive: a valid notification has to reach the running store
+		bv := uint64(1000 + rng.Intn(1000000))
+		fmt.Fprintf(os.Stderr, "VERIF-INPUT %s barrier notification %d\n", family, bv)
+		arrived := false
+		deadline := time.Now().Add(10 * time.Second)
+		for time.Now().Before(deadline) && !arrived {
+			gdev.Push(&gnmi.Notification{Timestamp: 1, Update: []*gnmi.Update{{Path: fixture.ToGPath(model.Parse("/verif-barrier")), Val: &gnmi.TypedValue{Value: &gnmi.TypedValue_UintVal{UintVal: bv}}}}})
+			for j := 0; j < 40 && !arrived; j++ {
+				st, _ := fixture.DumpStore(ctx, c.env.Cache, ds.Name, cachepb.Store_CONFIG)
+				if st["verif-barrier"] == fmt.Sprint(bv) {
+					arrived = true
+				} else {
+					time.Sleep(5 * time.Millisecond)
+				}
+			}
+		}
+		res.Count("sync_barriers", 1)
+		if !arrived {
+			res.Violate("C20/hang/gnmi-sync-stalled", "after this batch of gNMI notifications a valid notification pushed by the device does not reach the running store within 10 s: the subscription or the sync loop has stopped\n  batch: %s", strings.Join(inputs, "\n         "))
 		}
 	case "stateful-histories":
 		// valid requests only, but on a datastore with a history: several owners with overlapping leaves and leaf-lists of
